@@ -847,7 +847,8 @@ def _judge_diff(D, A, B, t, ra, rb, xsd, discs):
     """b - a = true elapsed time; a + (b - a) = b"""
     judged = False
     yl = t != 'time'
-    huge = yl and _huge(ra, rb)
+    # python's timedelta holds at most 999999999 days (~2.7 million years): a span beyond that overflows as well
+    huge = yl and (_huge(ra, rb) or abs(ra['y'] - rb['y']) > TD_LIMIT)
     amb = yl and _amb_between(xsd, t, ra, rb)
     sa, sb = fmt(t, _canon(t, ra), xsd), fmt(t, _canon(t, rb), xsd)
     exp = _inst(t, rb) - _inst(t, ra)
